@@ -176,6 +176,14 @@ impl<'a, F: Function> Solver<'a, F> {
     }
 }
 
+/// Upper bound on the number of Levenberg-Marquardt steps taken by [`solve`]
+///
+/// Once the error has reached the floating-point floor, every further step
+/// may still lower it by a few parts per million (and move a parameter by an
+/// ulp), so none of the other exit criteria fires for millions of iterations
+/// even though the solution has long since converged.
+const MAX_ITERATIONS: usize = 1000;
+
 /// Least-squares minimization on a set of functions
 ///
 /// Returns a map from free variable to its final value
@@ -223,7 +231,7 @@ pub fn solve<F: Function>(
     let mut damping = 1.0;
     let mut prev_err = f32::INFINITY;
     let mut err_buf = [0f32; 4];
-    for i in 0.. {
+    for i in 0..MAX_ITERATIONS {
         solver.get_jacobian(&cur, &mut jacobian, &mut result);
 
         // Early exit if we're done
